@@ -580,3 +580,26 @@ Proof.
     + destruct (wake g); [injection S4 as S4; exact S4|discriminate].
   - apply (ord_same g); auto. cbn. now rewrite Hq.
 Qed.
+
+(* ---------- the decisions of join's loop, against the table probed on the running class ---------- *)
+(* gen/Gen_curio.v lists, for every decision point that can be reached (policy, outcome of the member
+   just consumed, completed already set?), what the real join() did: stop or go on, record the member
+   as completed or not.  The model's [consume] / [stop_after] must say the same. *)
+Definition probe_pol (q : probe_policy) : policy := match q with QAll => PAll | QAny => PAny | QObject => PObject end.
+Definition probe_out (o : probe_outcome) : outcome :=
+  match o with ORetNone => RetNone | ORetFalsy | ORetVal => RetVal | OExc => Exc | OCanc => Canc end.
+Definition decision_state (q : probe_policy) (o : probe_outcome) (before : bool) : tg :=
+  let g := init (probe_pol q) MJoin in
+  let g := upd_members g [(0%N, {| m_daemon := false; m_status := Fin RetVal; m_cbs := [] |});
+                          (1%N, {| m_daemon := false; m_status := Fin (probe_out o); m_cbs := [] |})] in
+  upd_joiner g JNextDone true false None false false [] false (if before then Some 0%N else None)
+             (if before then [0%N] else []).
+Definition model_decision (q : probe_policy) (o : probe_outcome) (before : bool) : bool * bool :=
+  let g3 := consume (decision_state q o before) 1%N [] in
+  (stop_after g3 1%N, match completed g3 with Some 1%N => true | _ => false end).
+Definition decisions_agree : bool :=
+  forallb (fun e => let '(q, o, before, stops, counts) := e in
+                    let '(ms, mc) := model_decision q o before in Bool.eqb ms stops && Bool.eqb mc counts)
+          join_decisions.
+Lemma decisions_agree_true : decisions_agree = true.
+Proof. vm_compute. reflexivity. Qed.
